@@ -21,6 +21,7 @@ const prelude = `(set-option :print-success false)
 (declare-fun el_idx (Int) Int)
 (declare-fun rkind (Int) Int)
 (declare-fun rroot (Int) Int)
+(declare-fun birth (Int) Int)
 (declare-fun fnid (Int) Int)
 (declare-fun gid (Int) Int)
 (declare-fun s_len (Str) Int)
@@ -112,7 +113,7 @@ func verifyFunction(P *Program, db *ContractDB, fn *ssa.Function, c *Contract, v
 		panic(unsupported("no body"))
 	}
 	st := &State{heaps: map[string]*Term{}, closures: map[*Term]*Closure{}}
-	st.alloc = Const("|alloc@0|", ArrSort(SBool))
+	st.alloc = IntLit(0)
 	fr := &Frame{fn: fn, env: map[ssa.Value]Val{}, locals: map[*ssa.Alloc]*LocalCell{}, blk: fn.Blocks[0], visits: map[int]int{}, inCut: map[int]bool{}}
 	st.frames = []*Frame{fr}
 	// symbolic inputs
@@ -122,7 +123,7 @@ func verifyFunction(P *Program, db *ContractDB, fn *ssa.Function, c *Contract, v
 	for _, fv := range fn.FreeVars {
 		// captured variable: an allocated cell
 		r := Const(freshName("fv."+fv.Name()), SInt)
-		e.assume(And(Gt(r, IntLit(0)), Eq(App("rkind", SInt, r), IntLit(0)), Select(st.alloc, r)))
+		e.assume(And(Gt(r, IntLit(0)), Eq(App("rkind", SInt, r), IntLit(0)), Allocd(st.alloc, r)))
 		fr.env[fv] = r
 	}
 	if shape != nil {
@@ -236,8 +237,8 @@ func (e *Exec) checkFrame(st *State, fr *Frame) {
 		// unchanged on every object allocated at entry
 		x := BoundVar("x", SInt)
 		body := Implies(e.allocAtEntry(fr, x), Eq(Select(cur, x), Select(old, x)))
-		if strings.HasPrefix(name, "G!") {
-			body = Eq(Select(cur, x), Select(old, x))
+		if !cur.S.IsArr() || !old.S.IsArr() {
+			continue
 		}
 		e.check(st, nil, "FRAME", nil, "modifies only "+strings.Join(c.Modifies, ", ")+": "+name, Forall([]*Term{x}, body))
 	}
@@ -245,7 +246,7 @@ func (e *Exec) checkFrame(st *State, fr *Frame) {
 
 func (e *Exec) allocAtEntry(fr *Frame, x *Term) *Term {
 	// objects (and their sub-objects / elements) that existed at entry
-	return Select(fr.entry.alloc, App("rroot", SInt, x))
+	return Allocd(fr.entry.alloc, x)
 }
 
 func (e *Exec) applySpawn(st *State, fr *Frame, c *Contract, ctx *SpecCtx) {}
